@@ -10,10 +10,17 @@ import PlushModel.Lexer
 namespace Plush
 namespace LX
 
+/-- number of line feeds among the first `n` bytes -/
+def countLF (a : Array UInt8) : Nat → Nat
+  | 0 => 0
+  | n+1 => countLF a n + (if a.getD n 0 == 10 then 1 else 0)
+
 structure WF (l : LX) : Prop where
   rp : l.rp = l.pos + 1
   ch : l.ch = l.input.getD l.pos 0
   nc : l.crashed = false
+  /-- `curLine` is 1 + the number of line feeds consumed so far (the byte under `position` included) -/
+  ln : l.line = 1 + countLF l.input (l.pos + 1)
 
 theorem getD_zero_of_ge (a : Array UInt8) (i : Nat) (h : a.size ≤ i) : a.getD i 0 = 0 := by
   simp [Array.getD, Nat.not_lt.mpr h]
@@ -27,7 +34,10 @@ theorem WF.ch_zero {l : LX} (w : l.WF) (h : l.input.size ≤ l.pos) : l.ch = 0 :
   rw [w.ch]; exact getD_zero_of_ge _ _ h
 
 theorem new_wf (input : Array UInt8) : (LX.new input).WF := by
-  constructor <;> simp [LX.new, readChar]
+  refine ⟨by simp [LX.new, readChar], by simp [LX.new, readChar], by simp [LX.new, readChar], ?_⟩
+  show (if input.getD 0 0 == 10 then 1 + 1 else 1) = 1 + countLF input (0 + 1)
+  simp only [countLF]
+  split <;> omega
 
 @[simp] theorem readChar_input (l : LX) : l.readChar.input = l.input := rfl
 @[simp] theorem readChar_pos (l : LX) : l.readChar.pos = l.rp := rfl
@@ -37,7 +47,11 @@ theorem new_wf (input : Array UInt8) : (LX.new input).WF := by
 @[simp] theorem readChar_ch (l : LX) : l.readChar.ch = l.input.getD l.rp 0 := rfl
 
 theorem readChar_wf {l : LX} (w : l.WF) : l.readChar.WF := by
-  constructor <;> simp [w.nc]
+  refine ⟨by simp, by simp, by simp [w.nc], ?_⟩
+  show (if l.input.getD l.rp 0 == 10 then l.line + 1 else l.line) = 1 + countLF l.input (l.rp + 1)
+  rw [w.ln, w.rp]
+  simp only [countLF]
+  split <;> omega
 
 theorem readChar_pos' {l : LX} (w : l.WF) : l.readChar.pos = l.pos + 1 := by simp [w.rp]
 
@@ -298,7 +312,7 @@ namespace Plush
 namespace LX
 
 theorem wf_setInside {l : LX} (w : l.WF) (v : Bool) : ({ l with inside := v } : LX).WF :=
-  ⟨w.rp, w.ch, w.nc⟩
+  ⟨w.rp, w.ch, w.nc, w.ln⟩
 
 theorem adv_setInside {l : LX} (w : l.WF) (v : Bool) : Adv l { l with inside := v } :=
   ⟨wf_setInside w v, rfl, Nat.le_refl _⟩
